@@ -72,6 +72,7 @@ def main(argv):
     r.add_argument('path')
     s = sub.add_parser('selftest')
     s.add_argument('--quick', action='store_true')
+    s.add_argument('--families', action='store_true', help='run the bounded stand-in of every family on the unchanged tree: each must pass')
     args = ap.parse_args(argv)
     if args.cmd == 'func':
         return cmd_func(args)
